@@ -80,9 +80,13 @@ def main():
     else:
         dirs = args
     caught = 0
+    table = {}
     with ProcessPoolExecutor(max_workers=14) as pool:
         for d in dirs:
             r = evaluate(d, pool)
+            if 'error' not in r:
+                table[os.path.basename(d)] = dict(target=r['target'], caught_by=sorted(r['hits']), undecided=sorted(r['errors']),
+                                                  report={p: m for p, m in r['hits'].items()})
             if 'error' in r:
                 print(f'{d}: {r["error"]}')
                 continue
@@ -99,6 +103,9 @@ def main():
                 for p, m in list(r['errors'].items())[:2]:
                     print(f'     ERR {p}: {m}')
     print(f'caught {caught}/{len(dirs)}')
+    if args and args[0] == '--kept':
+        with open('/verif/seeded/RESULTS.json', 'w') as f:
+            json.dump(table, f, indent=1, sort_keys=True)
 
 
 if __name__ == '__main__':
